@@ -20,6 +20,9 @@ type Clause struct {
 	Src   string
 	File  string
 	Line  int
+	// Reveal: opaque specs that are expanded while this clause is PROVED (`reveal(a, b) expr`); where the clause is
+	// assumed afterwards it is assumed in its folded form (an opaque application equals its definition)
+	Reveal []string
 }
 
 type LoopContract struct {
@@ -31,6 +34,7 @@ type LoopContract struct {
 	Use        []*Clause // instances of trusted axiom schemata assumed at the loop head
 	UseEnd     []*Clause // ... assumed at the end of each iteration (may mention head(e))
 	Steps      []*Clause // relations between the head state and the end of one iteration (body_ensures)
+	EntryLemmas []*Clause // proved when the loop is first reached, then available to the inv-entry obligations
 }
 
 type SpecParam struct {
@@ -51,6 +55,7 @@ type SpecDef struct {
 	// reads; the defining equation is supplied only for applications outside any quantifier (ground unfolding).
 	Opaque     bool
 	opaqueKeys []string
+	opaqueSort map[string]string // SMT sort of each memory in opaqueKeys (memories are registered per function)
 	opaqueDone bool
 }
 
@@ -66,6 +71,7 @@ type FuncContract struct {
 	// treated as a tail call to its own contract): must be non-negative and smaller than at entry
 	RestartDec *Clause
 	MayPanic   bool
+	Effort     int  // solver budget (nominal seconds) for the obligations of this function when larger than the tier's
 	Wraps      bool // sized-integer arithmetic of this function may wrap around (defined in Go): modelled, not an obligation
 	Assigns    []*Clause
 	HasAssigns bool
@@ -146,6 +152,14 @@ func (cs *Contracts) load(path string) error {
 			if m := labelRe.FindStringSubmatch(rest); m != nil {
 				c.Label = m[1]
 				rest = rest[len(m[0]):]
+			}
+			if strings.HasPrefix(rest, "reveal(") {
+				if i := strings.Index(rest, ")"); i > 0 {
+					for _, nm := range strings.Split(rest[len("reveal("):i], ",") {
+						c.Reveal = append(c.Reveal, strings.TrimSpace(nm))
+					}
+					rest = strings.TrimSpace(rest[i+1:])
+				}
 			}
 			c.Src = rest
 			e, err := parser.ParseExpr(rest)
@@ -244,6 +258,12 @@ func (cs *Contracts) load(path string) error {
 			cur.MayPanic = true
 		case "wraps":
 			cur.Wraps = true
+		case "effort":
+			n, err := strconv.Atoi(rest)
+			if err != nil || cur == nil {
+				return fmt.Errorf("%s:%d: effort N", path, l.line)
+			}
+			cur.Effort = n
 		case "allow_unreachable":
 			cur.AllowDead = append(cur.AllowDead, strings.Fields(rest)...)
 		case "unroll":
@@ -267,7 +287,7 @@ func (cs *Contracts) load(path string) error {
 				return fmt.Errorf("%s:%d: %v", path, l.line, err)
 			}
 			cur.Ghosts = append(cur.Ghosts, sd)
-		case "requires", "ensures", "invariant", "decreases", "assigns", "panics", "lemma", "ghostaxiom", "use", "use_end", "use_entry", "step", "exit_code", "restart_decreases":
+		case "requires", "ensures", "invariant", "decreases", "assigns", "panics", "lemma", "ghostaxiom", "use", "use_end", "use_entry", "step", "exit_code", "restart_decreases", "entry_lemma":
 			if cur == nil {
 				return fmt.Errorf("%s:%d: clause outside func", path, l.line)
 			}
@@ -318,6 +338,11 @@ func (cs *Contracts) load(path string) error {
 					return fmt.Errorf("%s:%d: use_entry outside loop", path, l.line)
 				}
 				loop.UseEntry = append(loop.UseEntry, c)
+			case "entry_lemma":
+				if loop == nil {
+					return fmt.Errorf("%s:%d: entry_lemma outside loop", path, l.line)
+				}
+				loop.EntryLemmas = append(loop.EntryLemmas, c)
 			case "step":
 				if loop == nil {
 					return fmt.Errorf("%s:%d: step outside loop", path, l.line)
